@@ -135,6 +135,75 @@ def check_calendar(dates, problems, what="calendar", presented=None):
 CENTURY_YEARS = (1900, 2100)
 
 
+BOUNDARY_MD = ((1, 1), (1, 31), (2, 28), (3, 1), (5, 31), (6, 1), (8, 31), (9, 1), (11, 30), (12, 1), (12, 30), (12, 31))
+
+
+def calendar_correspondence(rng, tier, res, problems=None):
+    """tier B for Model.Calendar: the library's day_of_year / month / year / season and the calendar it infers for omitted
+    time arrays (create_array_of_consecutive_dates / infer_and_create_time_arrays_if_not_given) against the model (driver
+    DrvCalendar), on random and boundary dates in every time encoding the library accepts.  Returns the mismatches."""
+    from ibicus.utils import (create_array_of_consecutive_dates, day_of_year, infer_and_create_time_arrays_if_not_given,
+                              month, season, year)
+
+    n_rand = 60 if tier == "quick" else 400
+    dates = []
+    for y in (1900, 2000, 2100, 2024, 2023, rng.randint(1601, 2400), rng.randint(1950, 2100)):
+        for (m, d) in BOUNDARY_MD:
+            dates.append(datetime.date(y, m, d))
+        if y % 4 == 0 and (y % 100 != 0 or y % 400 == 0):
+            dates.append(datetime.date(y, 2, 29))
+    for _ in range(n_rand):
+        dates.append(datetime.date(rng.randint(1601, 2400), 1, 1) + datetime.timedelta(days=rng.randint(0, 364)))
+    lines, expect = [], []
+    with warnings.catch_warnings():
+        warnings.simplefilter("ignore")
+        for kind in sorted(set(DATE_KINDS)):
+            pool = [d for d in dates if 1700 <= d.year <= 2250] if kind == "M8ns" else dates  # (datetime64[ns] spans 1678..2262)
+            raw = np.array(pool if kind in ("date", "M8D") else rng.sample(pool, min(len(pool), 40)), dtype=object)
+            shown = present(raw, kind)
+            if problems is not None:
+                check_calendar(raw, problems, what="calendar", presented=shown)  # (the failing-input search of this tie)
+            try:
+                got = list(zip(np.asarray(day_of_year(shown)).tolist(), np.asarray(month(shown)).tolist(),
+                               np.asarray(year(shown)).tolist(), np.asarray(season(shown)).tolist()))
+            except Exception as ex:  # noqa: BLE001
+                got = [("error " + type(ex).__name__,) * 4] * len(raw)
+            for d0, (gd, gm, gy, gs) in zip(raw, got):
+                lines.append(f"date {d0.year} {d0.month} {d0.day}")
+                ylen = 366 if (d0.year % 4 == 0 and (d0.year % 100 != 0 or d0.year % 400 == 0)) else 365
+                # month / year are echoed from the input by the model: a wrong month()/year() of the library shows as a mismatch
+                expect.append(("date/" + kind, str(d0), f"ok {gd} {gs} {ylen}" if (gm, gy) == (d0.month, d0.year) else f"month/year {gm} {gy}"))
+                res.count(("calendar", kind, d0.month, d0.day in (1, 28, 29, 30, 31), ylen), True)
+        # consecutive days: the array constructor the library uses for inferred calendars
+        for _ in range(6 if tier == "quick" else 40):
+            start = rng.choice(dates)
+            n = rng.choice([1, 2, 59, 60, 366, 367, rng.randint(1, 800)])
+            arr = create_array_of_consecutive_dates(n, start_date=np.datetime64(start.isoformat()))
+            lines.append(f"run {n} {start.year} {start.month} {start.day}")
+            expect.append(("run", f"{n} from {start}", ",".join(f"{d.year}-{d.month}-{d.day}:{int(k)}" for d, k in zip(arr, day_of_year(arr))) if n else "-"))
+        for n in (1, 365, 366, 731, rng.randint(2, 1500)):
+            o = np.zeros(n)
+            tO, tH, tF = infer_and_create_time_arrays_if_not_given(o, o[: max(1, n // 2)], o[: max(1, n // 3)])
+            for nn, arr in ((n, tO), (max(1, n // 2), tH), (max(1, n // 3), tF)):
+                lines.append(f"inferred {nn}")
+                expect.append(("inferred", str(nn), ",".join(f"{d.year}-{d.month}-{d.day}:{int(k)}" for d, k in zip(arr, day_of_year(arr)))))
+        for _ in range(10 if tier == "quick" else 60):
+            y, k = rng.randint(1601, 2400), rng.randint(1, 365)
+            d0 = datetime.date(y, 1, 1) + datetime.timedelta(days=k - 1)
+            lines.append(f"ofdoy {y} {k}")
+            expect.append(("ofdoy", f"{y} {k}", f"{d0.month} {d0.day}"))
+    mismatches = []
+    try:
+        out = C.run_driver("DrvCalendar", lines)
+        for (what, case, exp), got in zip(expect, out):
+            res.cov["traces_validated_against_impl"] += 1
+            if exp != got:
+                mismatches.append({"op": what, "case": case, "impl": exp[:200], "model": got[:200]})
+    except (C.DriverError, Exception) as ex:  # noqa: BLE001
+        mismatches.append({"op": "driver", "case": "", "impl": "", "model": f"{type(ex).__name__}: {str(ex)[:300]}"})
+    return mismatches
+
+
 def dates_from(start, n):
     return np.array([start + datetime.timedelta(days=k) for k in range(n)], dtype=object)
 
@@ -241,6 +310,17 @@ def skeleton_cases(rng, n, tier, res, problems):
         kind = ["rw", "dc", "isimip_rw", "isimip_months", "cdft_years", "qdm_years"][k % 6]
         dO, dH, dF = small_span(rng, maxn), small_span(rng, maxn), small_span(rng, maxn)
         S = rng.choice([1, 3, 5, 9, 31, rng.randint(1, 60)])
+        if k % 12 < 9 and kind in ("rw", "dc", "isimip_rw"):
+            # deliberately: the corrected series runs over a turn of the year (both ends of the day-of-year range present,
+            # first / last windows next to each other circularly) with a step > 1
+            yy = rng.randint(1960, 2080)
+            startX = datetime.date(yy, 1, 1) + datetime.timedelta(days=rng.randint(300, 364))
+            dX = dates_from(startX, rng.choice([rng.randint(40, 120), rng.randint(366, maxn)]))
+            if kind == "dc":
+                dO = dX
+            else:
+                dF = dX
+            S = rng.choice([5, 9, 15, 31, 7, 13])
         L = S + rng.choice([0, 0, 2, rng.randint(0, 40)])
         nprs = np.random.RandomState(rng.randint(0, 2**31 - 1))
         o = nprs.randint(-9, 10, dO.size).astype(float)
